@@ -111,9 +111,15 @@ class Registry(object):
     self.externals = {}          # dotted name -> V factory
     self.lemmas = []
     self.extra_units = []        # custom verification units (callables)
-    self.closed_classes = set()  # classes whose instance attributes are exactly the declared shape + class members
+    self.closed_classes = set()
+    self.private_fields = set()      # (class, field) never written by opaque user code (frame assumption)
+    self.private_exceptions = set()  # exception classes user code never raises  # classes whose instance attributes are exactly the declared shape + class members
 
   # ---- declarations
+  def private(self, clsname, *fields):
+    for f in fields:
+      self.private_fields.add((clsname, f))
+
   def closed(self, *names):
     self.closed_classes.update(names)
 
